@@ -4,6 +4,8 @@ CONSTANTS
   Lens = {1, 2}
   MaxSecs = 3
   Vcpus = {1, 2}
+  Roms = {1}
+  Bases = {"high"}
 SPECIFICATION Spec
 INVARIANTS C04_OrderRomSectionsVmsas C04_AcceptedHaveMandatory Emit
 CHECK_DEADLOCK FALSE
